@@ -384,3 +384,25 @@ func TestVerifSpecAgainstAnnotations(t *testing.T) {
 		t.Fail()
 	}
 }
+
+// TestRender writes the routes file of every engine into out/<engine>/routes.go (package routes) so that the
+// rendered Go helpers (authorize, ...) can be loaded and verified, and so that the handler checks can read them.
+func TestRender(t *testing.T) {
+	for _, engine := range []string{"gin", "echo", "mux", "chi", "fiber"} {
+		dir := filepath.Join("out", engine)
+		os.RemoveAll(dir)
+		os.MkdirAll(dir, 0o755)
+		abs, _ := filepath.Abs(dir)
+		r, _, err := genInto(t, abs, func(cfg map[string]any) {
+			rc := cfg["routesConfig"].(map[string]any)
+			rc["engine"] = engine
+			rc["authorizationConfig"].(map[string]any)["authFileFullPackageName"] = "fxproj/auth/" + engine
+		})
+		if err != nil || len(r) == 0 {
+			t.Fatalf("render %s: %v", engine, err)
+		}
+		os.Remove(filepath.Join(abs, "openapi.json"))
+		os.Remove(filepath.Join(abs, "gleece.config.json"))
+	}
+	fmt.Println("VERIF-DONE")
+}
